@@ -136,7 +136,8 @@ def judge_words(words, text=None, skipped_char=False):
             k2, v2 = first_evaluation(spec, words)
     except TimeoutError:
         return 'first evaluation did not terminate', 'timeout'
-    if k2 == 'exc':
+    if k2 == 'exc' and not v2.startswith(('ValueError: math domain error', 'ZeroDivisionError', 'OverflowError')):
+        # (math domain errors of sqrt/log/division on the probe data are outside the property)
         return 'parse() succeeded but the first evaluation raised %s' % (v2,), 'accepted, evaluation crashed'
     return None, 'accepted'
 
